@@ -715,7 +715,7 @@ def c12_jobs(tier, seed):
                  "gb18030": [0xE700, 0xE800, 0x2000, 0x4E00, 0x0080], "Big5": [0x2500, 0x4E00, 0x5300], "EUC-KR": [0xAC00, 0x4E00]}
     for enc, ws in fold_wins.items():
         if not q:
-            ws = sorted(set(ws) | set(range(0, 0x10000, 0x800)))
+            ws = sorted(set(ws) | set(w for w in range(0, 0x10000, 0x800) if not 0xD800 <= w < 0xE000))     # (no scalar values there)
         nbs = [(0, 0), (1, 1), (1, 4), (4, 1), (2, 2), (9, 5), (5, 9), (6, 1)] if enc == "ISO-2022-JP" else [(0, 0), (1, 4), (4, 1), (5, 1)]
         for k, w in enumerate(ws):
             for j, (b, a) in enumerate(nbs if not q else nbs[:(5 if enc == "ISO-2022-JP" else 2)]):
